@@ -1,5 +1,6 @@
 import SeqIoModel.Proofs.Fill
 import SeqIoModel.Proofs.FastaFault
+import SeqIoModel.Proofs.FastqFault
 /-!
 # C14 – source errors surface unchanged; interrupted reads are invisible
 
@@ -69,5 +70,25 @@ theorem fasta_first_fault_surfaces (inp : List UInt8) (cap : Nat) (hcap : 3 ≤ 
     (NoFail script → ∀ o ∈ Fasta.Hist.runM (Fasta.Hist.mkMSt inp cap pol script chunk) ops,
       Fasta.Fault.isIoErr o = false) :=
   Fasta.Fault.fasta_first_fault_surfaces inp cap hcap pol hpol script chunk ops
+
+/-- Reader level (FASTQ), including seeks and scripted seek failures: everything before the first I/O
+error is accepted by the abstract reader; that error carries the kind of the first failing read event –
+or, if it is a seek that failed, the kind scripted for that very seek call; without failing events no
+I/O error is ever observed -/
+theorem fastq_first_fault_surfaces (inp : List UInt8) (cap : Nat) (hcap : 3 ≤ cap) (pol : Pol)
+    (hpol : Fastq.PolGrows pol) (script : List ReadEv) (chunk : Nat)
+    (ops : List Fastq.Hist.Op) (hops : ∀ op ∈ ops, op.wf = true) :
+    ((∀ o ∈ Fastq.Hist.runM (Fastq.Hist.mkM inp cap pol script chunk) ops, Fastq.Fault.isIoErr o = false) →
+      Fastq.Hist.acceptsA (Spec.fastq inp) {} ops (Fastq.Hist.runM (Fastq.Hist.mkM inp cap pol script chunk) ops) = true) ∧
+    (∀ j o, (Fastq.Hist.runM (Fastq.Hist.mkM inp cap pol script chunk) ops)[j]? = some o →
+      Fastq.Fault.isIoErr o = true →
+      (∀ i o', i < j → (Fastq.Hist.runM (Fastq.Hist.mkM inp cap pol script chunk) ops)[i]? = some o' →
+        Fastq.Fault.isIoErr o' = false) →
+      Fastq.Hist.acceptsA (Spec.fastq inp) {} (ops.take j)
+        ((Fastq.Hist.runM (Fastq.Hist.mkM inp cap pol script chunk) ops).take j) = true ∧
+      ∃ used k rest, script = used ++ .fail k :: rest ∧ NoFail used ∧ o = .error (.io k)) ∧
+    (NoFail script → ∀ o ∈ Fastq.Hist.runM (Fastq.Hist.mkM inp cap pol script chunk) ops,
+      Fastq.Fault.isIoErr o = false) :=
+  Fastq.Fault.fastq_first_fault_surfaces_read inp cap hcap pol hpol script chunk ops hops
 
 end SeqIo.Thm.C14
